@@ -217,7 +217,8 @@ def check_setup(eng, run, reg):
         run.finding("C17.setup", h, raises[0] if raises else h.node, "the TLS handshake error handler can raise / is not total: a failed handshake of one client propagates")
     run.ob("C17.setup", f"{h.short}:total-no-raise", ok)
     # the user-supplied handshake_error_handler runs under its own catch-all
-    calls = [n for n in own_nodes(thw.node) if isinstance(n, ast.Call) and isinstance(n.func, ast.Name) and n.func.id == "handshake_error_handler"]
+    user_cb = {t.id for n in own_nodes(thw.node) if isinstance(n, ast.Assign) and "handshake_error_handler" in ast.unparse(n.value) for t in n.targets if isinstance(t, ast.Name)} | {"handshake_error_handler"}
+    calls = [n for n in own_nodes(thw.node) if isinstance(n, ast.Call) and isinstance(n.func, ast.Name) and n.func.id in user_cb]
     ok = bool(calls)
     for c in calls:
         inside = False
